@@ -20,6 +20,8 @@ def plain(v):
     """Canonical python value for a (possibly numpy) scalar."""
     if isinstance(v, np.generic):
         v = v.item()
+    if isinstance(v, float) and v == 0 and math.copysign(1.0, v) < 0:
+        return v            # -0.0 is not the value 0 (atan2, copysign, repr)
     if isinstance(v, float) and math.isfinite(v) and v == int(v) \
             and abs(v) < 2**53:
         # 1.0 and 1 are the same label (hash-equal); canonicalise
